@@ -194,6 +194,33 @@ def main():
                     R.count('writer:crop')
                 except Exception as e:
                     R.notes.append(f'crop composition skipped ({type(e).__name__}: {str(e)[:80]})') if len(R.notes) < 5 else None
+        # ---------------- SEG-Y converted with an inline/crossline WINDOW: the container must be that of the sub-cube (header
+        # arrays of 4 bytes per WINDOW trace).  Trace counts of source and window fall into different 512-byte strides.
+        wcases = [((12, 12), (2, 10, 0, 8)), ((9, 15), (0, 9, 3, 12)), ((16, 16), (1, 9, 4, 16))]
+        if thorough:
+            wcases += [((11, 13), (3, 11, 0, 13)), ((20, 8), (4, 20, 0, 8)), ((8, 33), (0, 8, 1, 17)), ((17, 17), (0, 16, 0, 8))]
+        for wi, ((n_il, n_xl), win) in enumerate(wcases):
+            bpv, bs = [(8, (4, 4, 256)), (4, (8, 8, 128)), (2, (4, 4, 1024)), (16, (4, 4, -1))][wi % 4]
+            ns = rng.choice([5, 9, 17])
+            src = rnd_cube(rng, (n_il, n_xl, ns))
+            idx += 1
+            p = os.path.join(d, f'w{idx}.sgz'); sgy = os.path.join(d, f'w{idx}.sgy')
+            il = list(range(3, 3 + 2 * n_il, 2)); xl = list(range(100, 100 + 3 * n_xl, 3))
+            mode = ['heuristic', 'exhaustive', 'thorough', 'heuristic'][wi % 4]
+            inp = {'writer': 'segy, window', 'shape': [n_il, n_xl, ns], 'window': list(win), 'bits_per_voxel': bpv, 'blockshape': list(bs),
+                   'header_detection': mode, 'reduce_iops': bool(wi % 2)}
+            try:
+                mk_segy(sgy, src, il, xl)
+                write_segy_sgz(sgy, p, bpv=bpv, blockshape=bs, header_detection=mode, window=win, reduce_iops=bool(wi % 2))
+                with segyio.open(sgy) as f:
+                    sel = np.array([i * n_xl + x for i in range(win[0], win[1]) for x in range(win[2], win[3])])
+                    hsrc = lambda key, f_attr={int(k): f.attributes(int(k))[:].astype(np.int32)[sel] for k in segyio.tracefield.keys.values()}: f_attr.get(key)
+            except Exception as e:
+                R.violation('oracle', inp, f'valid input: windowed conversion raised {type(e).__name__}: {e}')
+                continue
+            check_file(p, inp, src[win[0]:win[1], win[2]:win[3]], (win[1] - win[0], win[3] - win[2], ns), hsrc)
+            R.case(('conv-window', n_il, n_xl, ns, bpv) + tuple(win), sample=inp)
+            R.count('writer:segy window')
         # ---------------- format versions on both sides of every gate (0.1.7: interval in microseconds; 0.2.2: padded footer +
         # trace count field), releases and development builds.  A file AS A LIBRARY OF VERSION v WROTE IT is built from a
         # current file by the specification alone (as_version below); the reader must report what was written, and whatever
